@@ -331,6 +331,13 @@ func h1run(t *testing.T, srv *BfeServer, answers []h1answer, body func(e *h1env)
 			c.serve()
 		}()
 		synctest.Wait()
+		// conn.serve did srv.connWaitGroup.Add(1) inside this bubble. go1.26 ties a WaitGroup to
+		// the bubble of its first Add and only releases it when the counter reaches 0 with a
+		// waiter present; without one the next execution (another bubble, same server) dies with
+		// "WaitGroup.Add called from multiple synctest bubbles". A waiter inside the bubble makes
+		// the Done() at the end of serve disassociate the WaitGroup again.
+		go srv.connWaitGroup.Wait()
+		synctest.Wait()
 		body(e)
 		// teardown: client goes away; serve must return
 		e.conn.mu.Lock()
